@@ -120,22 +120,27 @@ struct DG {
 
 fn build_tokens(thorough: bool) -> Vec<(String, Vec<u8>)> {
     let mut v = Vec::new();
+    // quick: csid 3 with the full menu and csid 64 (2-byte form) for the large-length tokens, so that
+    // two chunk streams can hold partial messages at the same time
     let csids: Vec<(u32, Vec<u8>)> = if thorough {
         vec![(3, vec![3]), (64, vec![0, 0]), (320, vec![1, 0, 1])]
     } else {
-        vec![(3, vec![3])]
+        vec![(3, vec![3]), (64, vec![0, 0])]
     };
-    let fields: Vec<u32> = if thorough { vec![0, 1, 0xFF_FFFE, 0xFF_FFFF] } else { vec![1, 0xFF_FFFF] };
+    let fields: Vec<u32> = if thorough { vec![0, 1, 0xFF_FFFF] } else { vec![1, 0xFF_FFFF] };
     let exts: Vec<Option<u32>> = if thorough {
-        vec![None, Some(0), Some(0xFF_FFFE), Some(0xFF_FFFF), Some(0x100_0000), Some(0xFFFF_FFFF)]
+        vec![None, Some(5), Some(0xFF_FFFF), Some(0xFFFF_FFFF)]
     } else {
         vec![None, Some(5), Some(0xFFFF_FFFF)]
     };
-    let lens: Vec<u32> = if thorough { vec![0, 1, 2, 3, 129, 0xFF_FFFF] } else { vec![0, 2, 0xFF_FFFF] };
+    let lens: Vec<u32> = if thorough { vec![0, 1, 3, 129, 0xFF_FFFF] } else { vec![0, 2, 0xFF_FFFF] };
     let pays: Vec<usize> = vec![0, 1, 3];
-    for (csid, basic) in csids.iter() {
+    for (ci, (csid, basic)) in csids.iter().enumerate() {
         for fmt in 0..4u8 {
             for &f in fields.iter() {
+                if !thorough && ci > 0 && f != fields[0] {
+                    continue;
+                }
                 if fmt == 3 && f != fields[0] {
                     continue;
                 }
